@@ -45,18 +45,18 @@ Theorem C14_textual_splice :
 Proof. exact read_numbered_textual_splice. Qed.
 Print Assumptions C14_textual_splice.
 
-(* the file is found in one of the searched directories -- the FIRST in which it exists -- and nowhere else *)
+(* the file is found in one of the searched directories -- the FIRST in which a FILE of that name exists (a directory of that name is skipped: repo commit 30b3d5d) -- and nowhere else *)
 Theorem C14_lookup :
   forall fs cwd rel dirs p,
     lookup fs cwd rel dirs = Some p ->
-    exists l1 d l2, dirs = (l1 ++ d :: l2)%list /\ p = join_path d rel /\ fs_exists fs cwd p = true /\
-                    Forall (fun d' => fs_exists fs cwd (join_path d' rel) = false) l1.
+    exists l1 d l2, dirs = (l1 ++ d :: l2)%list /\ p = join_path d rel /\ fs_isfile fs cwd p = true /\
+                    Forall (fun d' => fs_isfile fs cwd (join_path d' rel) = false) l1.
 Proof. exact lookup_found. Qed.
 Print Assumptions C14_lookup.
 
 Theorem C14_lookup_none :
   forall fs cwd rel dirs,
-    lookup fs cwd rel dirs = None -> Forall (fun d => fs_exists fs cwd (join_path d rel) = false) dirs.
+    lookup fs cwd rel dirs = None -> Forall (fun d => fs_isfile fs cwd (join_path d rel) = false) dirs.
 Proof. exact lookup_missing. Qed.
 Print Assumptions C14_lookup_none.
 
